@@ -69,7 +69,22 @@ def random_layout(rng, comments=True):
                        bare_words=rng.random() < 0.3, alt_quote_prob=0.3)
 
 
-def gen_documents(rng, n, max_depth=3, roots=None):
+STRING_POOL = [" padded ", "tab\tinside", "a#b", "\u00fcn\u00efc\u00f6de \u4e2d\u6587", "with 'apos'", 'with "dq"', "multi\nline", "  ", "semi;colon", "100% sure",
+               "back\\slash mid", "UPPER lower", "trailing space ", " leading", "\U0001F600 astral", "a/b/c.shp", "x=1 y=2", "END", "end of story", "#notcomment"]
+
+
+def vary_strings(b, rng, prob=0.3):
+    """replace some free-string values by awkward ones (intended value = the same text)"""
+    for it in b.items:
+        if isinstance(it, docs.Block):
+            vary_strings(it, rng, prob)
+        elif it.shape == "string" and it.kind == "attr" and not it.repeated and len(it.tokens) == 2 and rng.random() < prob:
+            w = rng.choice(STRING_POOL)
+            it.tokens = [it.tokens[0], docs.T("qstr", w)]
+            it.intended = w
+
+
+def gen_documents(rng, n, max_depth=3, roots=None, vary=True):
     usable = sweep.usable_slots()
     child_ok = sweep.usable_children()
     roots = roots or ["map", "map", "layer", "class", "style", "label", "web", "legend", "scalebar", "symbol", "outputformat"]
@@ -78,7 +93,11 @@ def gen_documents(rng, n, max_depth=3, roots=None):
         root = rng.choice(roots)
         if rng.random() < 0.15:
             k = rng.randrange(2, 4)
-            out.append([clone_doc(docs.gen_doc(rng, usable, root, 0, max_depth, 6, child_ok)) for _ in range(k)])
+            d = [clone_doc(docs.gen_doc(rng, usable, root, 0, max_depth, 6, child_ok)) for _ in range(k)]
         else:
-            out.append(clone_doc(docs.gen_doc(rng, usable, root, 0, max_depth, 6, child_ok)))
+            d = clone_doc(docs.gen_doc(rng, usable, root, 0, max_depth, 6, child_ok))
+        if vary:
+            for b in (d if isinstance(d, list) else [d]):
+                vary_strings(b, rng)
+        out.append(d)
     return out
